@@ -205,6 +205,10 @@ func GenMap(r *mon.RNG, o *MapOpts) *GMap {
 				// a literal that does not start with a digit (it would extend the group number visually only; still legal)
 				kids = append(kids, &RX{Op: "lit", Lit: r.Pick(";", "x", "--", ")")})
 			}
+			if r.Chance(1, 4) {
+				// an escaped backslash followed by a digit after the back-reference: a literal, not a second back-reference
+				kids = append(kids, &RX{Op: "lit", Lit: "\\" + r.Pick("0", "1", "2")})
+			}
 			rx := &RX{Op: "cat", Kids: kids}
 			if r.Chance(1, 4) {
 				// a back-reference pattern with a top-level alternation: \1--|x
